@@ -18,6 +18,8 @@ CHECKS = {
          "seeded search over interleavings of Publish/Subscribe/cancel/Shutdown (every select order, map order and task choice from one PRNG) with an exact oracle: each subscriber's Send sequence must be the topic-filtered contiguous slice of Joe's serialisation order from its acceptance point, reaching every message published before its cancellation."),
  "C04": ("exploration", "4 C04", "deterministic simulation: seeded scheduler over real Joe + real Finite/ValidReplayer, replay||live sequence vs Put-order witness",
          "seeded search over pre-histories, presented IDs and Subscribe/Publish interleavings with real replayers; the whole replayed-then-live Send sequence must equal the suffix of the Put order after the presented ID."),
+ "C05": ("exploration", "4 C05", "deterministic whole-system simulation with fault injection: real Server+Session+Joe+replayer and real Client+Connection+parser joined by a simulated transport; cuts at any byte offset (abrupt / handler end), reconnects on the fake clock, seeded scheduler",
+         "seeded search over publish timings, payloads, cut sequences and schedules; safety after every callback (received = published sequence from the first received event on) and bounded liveness (once faults stop the client catches up before the system goes idle), server survival (no panic)."),
  "C06": ("exploration", "4 C06", "deterministic simulation with fault injection: failing Send/Flush (optionally cancelling its own context), Replay errors, cancels and shutdowns racing under the seeded scheduler",
          "seeded search over schedules and fault plans; a panic in any task (Joe's goroutine included), a MessageWriter call after Subscribe returned, or a wrong Subscribe result is a violation."),
  "C07": ("exploration", "4 C07", "deterministic simulation: 1-4 Shutdown calls (live/expired/expiring contexts on the fake clock) racing everything else; bounded liveness = all tasks finish once nothing is runnable",
